@@ -217,10 +217,12 @@ class VC:
             if v.sort == 'Int':
                 cands[v.sort].append('(- %s 1)' % v.term)
                 cands[v.sort].append('(+ %s 1)' % v.term)
+                cands[v.sort].append('(- %s 2)' % v.term)
+                cands[v.sort].append('(+ %s 2)' % v.term)
         cands.setdefault('Int', []).append('0')
         for (sort, term) in self.inst_terms[:obl.ninst]:
             l = cands.setdefault(sort, [])
-            if term not in l and len(l) < 10:
+            if term not in l and len(l) < 14:
                 l.append(term)
         for ai, a in enumerate(self.assumes[:obl.nassume]):
             if not isinstance(a, tuple):
